@@ -428,8 +428,6 @@ Proof.
 Qed.
 
 (* when calc_interest_rate succeeds with non-negative fees: borrow >= base, and lend <= base on [0,1] *)
-Lemma bind_ok {A B} (r : res A) (f : A -> res B) v : bind r f = Ok v -> exists a, r = Ok a /\ f a = Ok v.
-Proof. destruct r; cbn; intros H; [eauto | discriminate]. Qed.
 
 Lemma borrow_ge_lend_le c pf ur r :
   calc_interest_rate c pf ur = Ok r ->
